@@ -28,10 +28,10 @@ def valuePullLoop (E : Option MCmp) (flt : Val → Val) : Top → List Val → L
     | none => ⟨change, true⟩ :: valuePullLoop E flt (some change) rest
 
 /-- `Value.Pull`: the seed (current value, filtered, always sent) followed by the loop.
-`last := currentValue` — the UNFILTERED current value, as coded. -/
+`last` is the value of the seed change as sent (after the filter). -/
 def valuePull (E : Option MCmp) (flt : Val → Val) (cur : Top) (events : List Val) : List Decision :=
   match cur with
-  | some v => ⟨flt v, true⟩ :: valuePullLoop E flt (some v) events
+  | some v => ⟨flt v, true⟩ :: valuePullLoop E flt (some (flt v)) events
   | none => valuePullLoop E flt none events
 
 /-- One collection event for an id as the loop sees it: old and new value (nil for ADD / REMOVE). -/
